@@ -382,7 +382,104 @@ def bit_flip(pos: int, bit: int, v0: int, v1: int) -> bool:
     return fed(p1) != fed(p2)
 
 
-SANITY = ['sp_opaque(100, False, 1, 2, 1, 2, 0, 0)', 'sp_opaque(0, True, 5, 0, 0, 0, 0, 0)', 'sp_opaque(127, False, 2, 4, 9, 8, 7, 6)',
+# ------------------------------------------------------------------------------------ O5.4 using a key does not touch what it received
+from vlib.h import native
+from harness import sigfix as _sf
+from harness.c08 import split_one as _split_one
+
+_sf.install_oracle()
+_K5 = _sf.new_key('five', sub=True)
+_K5PUBBYTES = bytes(_K5.__bytearray__())
+
+
+def _key_with_flag_octet(f):
+    """the fixture key as octets with the key-flags octet of the identity's self-certification set to f (any value another producer might write)"""
+    data = bytearray(_K5PUBBYTES)
+    i = 0
+    n = 0
+    while i < len(data):
+        tag, hl, bl = _split_one(bytes(data[i:]))
+        if tag == 2 and data[i + hl + 1] == 0x13:
+            j = bytes(data[i:i + hl + bl]).find(bytes([2, 27]))
+            data[i + j + 2] = f
+            n += 1
+        i += hl + bl
+    assert n == 1
+    return bytes(data)
+
+
+def _regions(key):
+    out = []
+    for sig in list(key.userids[0]._signatures) + [s for sk in key.subkeys.values() for s in sk._signatures]:
+        if hasattr(sig._signature.header, 'version') and not sig.embedded:
+            out.append(bytes(fed(sig._signature)))
+    return sorted(out)
+
+
+def _received_regions(blob):
+    """the regions as they stand in the octets (independent of PGPy's objects): version .. end of the hashed area of every signature packet"""
+    out = []
+    i = 0
+    while i < len(blob):
+        tag, hl, bl = _split_one(blob[i:])
+        if tag == 2:
+            body = blob[i + hl:i + hl + bl]
+            out.append(bytes(body[:6 + body[4] * 256 + body[5]]))
+        i += hl + bl
+    return sorted(out)
+
+
+def _use_case(f, op):
+    from pgpy import PGPKey, PGPMessage
+    import pgpy.constants as _K
+    blob = _key_with_flag_octet(f)
+    key, _ = PGPKey.from_blob(blob)
+    received = _received_regions(blob)
+    before = _regions(key)
+    if before != received:
+        return False
+    _sf.Oracle.reset()
+    try:
+        if op == 0:
+            key.sign(b'doc')
+        elif op == 1:
+            key.certify(key.userids[0])
+        elif op == 2:
+            key.pubkey.encrypt(PGPMessage.new(b'x', compression=_K.CompressionAlgorithm.Uncompressed))
+        else:
+            key._get_key_flags()
+    except Exception:
+        pass                                                  # refusing is fine: what matters is what the attempt left behind
+    return _regions(key) == received and _regions(key.pubkey) == received and bytes(key.__bytearray__()) == blob
+
+
+@ob('O5.4', 'using a key (signing, certifying, encrypting to it, or only asking for its capabilities) leaves every signature it carries hashing exactly the octets received, '
+            'on the key, on its public twin and in its export - whatever the key-flags octet of the self-certification is (e.g. without the certify bit)',
+    'key-flags octet over all 256 values x operation in {sign, certify, encrypt, capability query}; each path concrete and native (oracle primitive)', cond_timeout={'q': 280, 't': 900},
+    partitions=[['f // 64 == %d' % q] for q in range(4)])
+def use_leaves_received_octets(f: int, op: int) -> bool:
+    """
+    pre: 0 <= f < 256
+    pre: 0 <= op < 4
+    post: _
+    """
+    base = 0
+    for q in range(4):
+        if f // 64 == q:
+            base = 64 * q
+    ff = base
+    for k in range(64):
+        if f == base + k:
+            ff = base + k
+    o = 0
+    for k in range(4):
+        if op == k:
+            o = k
+    with native():
+        return _use_case(ff, o)
+
+
+SANITY = ['use_leaves_received_octets(2, 0)', 'use_leaves_received_octets(3, 2)', 'use_leaves_received_octets(0x8C, 1)', 'use_leaves_received_octets(0, 3)'] + ['sp_opaque(100, False, 1, 2, 1, 2, 0, 0)', 'sp_opaque(0, True, 5, 0, 0, 0, 0, 0)', 'sp_opaque(127, False, 2, 4, 9, 8, 7, 6)',
           'sp_text(26, False, 1, 3, 0x68, 0xC3, 0xA9)', 'sp_text(6, True, 5, 1, 0xFF, 0, 0)', 'sp_text(28, False, 2, 2, 0x80, 0x41, 0)',
           'sp_flags(27, False, 1, 1, 0xC3, 0, 0)', 'sp_flags(27, False, 1, 3, 0, 0, 2)', 'sp_flags(30, True, 5, 2, 0xFF, 0xFF, 0)',
           'sp_bool(4, False, 1, 1)', 'sp_bool(4, False, 1, 0)', 'sp_bool(7, True, 5, 2)', 'sp_bool(25, False, 1, 255)',
